@@ -3,6 +3,7 @@ import GnpyProofs.Lemmas.ChainNum
 import GnpyProofs.Lemmas.ChainList
 import GnpyProofs.Lemmas.ChainPad
 import GnpyProofs.Lemmas.ChainSplit
+import GnpyProofs.Lemmas.ChainGraph
 /- Property theorems for C08 — auto-design yields a complete line system.
    Model: GnpyModel/Chain.lean (lists of line elements between two endpoints).  Numeric statements over ℝ.
    Helper lemmas: GnpyProofs/Lemmas/ChainNum.lean, ChainList.lean. -/
@@ -151,6 +152,86 @@ theorem connectors_defined (dIn dOut eol : α) (l : List (Elem α)) :
 
 end
 
+/-! ### the graph stays a set of one-in/one-out chains with unchanged reachability -/
+
+section
+variable {α : Type} [Add α] [Sub α] [Mul α] [Div α] [Neg α] [NatCast α] [LT α] [LE α]
+  [DecidableLT α] [DecidableLE α] [Transc α]
+
+/-- **Every line element has exactly one predecessor and one successor** in the graph of a set of chains, as soon as
+the names in its own chain are distinct and no other chain mentions it (for the completed chains that is what
+`names_unique_partial` and the monitor establish). Holds for any set of chains, in particular for
+`chs.map (completeChain …)`. -/
+theorem one_in_one_out (pre post : List (Chain α)) (ch : Chain α) (u : String)
+    (hn : (chainNodes ch).Nodup) (hu : u ∈ ch.line.map Elem.uid)
+    (hother : ∀ c ∈ pre ++ post, u ∉ chainNodes c) :
+    inDeg (toGraph (pre ++ ch :: post)) u = 1 ∧ outDeg (toGraph (pre ++ ch :: post)) u = 1 := by
+  have hpre := deg_zero_of_absent pre u (fun c hc => hother c (by simp [hc]))
+  have hpost := deg_zero_of_absent post u (fun c hc => hother c (by simp [hc]))
+  rw [toGraph_append, toGraph_cons, inDeg_append, inDeg_append, outDeg_append, outDeg_append,
+    hpre.1, hpre.2, hpost.1, hpost.2]
+  have hin := inDeg_pathEdges (chainNodes ch) hn u
+  have hout := outDeg_pathEdges (chainNodes ch) hn u
+  have htail : u ∈ (chainNodes ch).tail := by simp [chainNodes]; exact Or.inl (by simpa using hu)
+  have hdrop : u ∈ (chainNodes ch).dropLast := by
+    have : (chainNodes ch).dropLast = ch.src :: ch.line.map Elem.uid := by
+      simp only [chainNodes]
+      rw [← List.cons_append, List.dropLast_concat]
+    rw [this]; exact List.mem_cons_of_mem _ hu
+  simp only [chainEdges]
+  rw [hin, hout, if_pos htail, if_pos hdrop]
+  exact ⟨rfl, rfl⟩
+
+/-- **Degrees of the endpoints**: a ROADM/transceiver that is not used as a line element has as many outgoing edges
+as chains leave it and as many incoming edges as chains end at it -/
+theorem endpoints_degree (chs : List (Chain α)) (r : String)
+    (hn : ∀ c ∈ chs, (chainNodes c).Nodup) (hr : ∀ c ∈ chs, r ∉ c.line.map Elem.uid) :
+    outDeg (toGraph chs) r = (chs.filter (fun c => c.src == r)).length ∧
+    inDeg (toGraph chs) r = (chs.filter (fun c => c.dst == r)).length := by
+  induction chs with
+  | nil => simp [toGraph, inDeg, outDeg]
+  | cons c rest ih =>
+    have hc := hn c (by simp)
+    have hrc := hr c (by simp)
+    obtain ⟨io, ii⟩ := ih (fun x hx => hn x (by simp [hx])) (fun x hx => hr x (by simp [hx]))
+    have hdrop : (chainNodes c).dropLast = c.src :: c.line.map Elem.uid := by
+      simp only [chainNodes]
+      rw [← List.cons_append, List.dropLast_concat]
+    have hsd : c.src ≠ c.dst := by
+      intro h
+      have := (List.nodup_cons.mp hc).1
+      apply this; simp [h]
+    rw [toGraph_cons, outDeg_append, inDeg_append, io, ii]
+    simp only [chainEdges]
+    rw [outDeg_pathEdges _ hc r, inDeg_pathEdges _ hc r, hdrop]
+    simp only [chainNodes, List.tail_cons, List.mem_cons, List.mem_append, List.filter_cons]
+    constructor
+    · by_cases h : c.src = r
+      · simp [h]; omega
+      · have h' : ¬ r = c.src := fun x => h x.symm
+        simp [h, h', hrc]
+    · by_cases h : c.dst = r
+      · simp [h]; omega
+      · have h' : ¬ r = c.dst := fun x => h x.symm
+        have hrc' : ¬ ∃ a ∈ c.line, a.uid = r := by simpa using hrc
+        simp [h, h', hrc']
+
+/-- every chain is a path of the graph from its source to its destination -/
+theorem chain_is_path (chs : List (Chain α)) (ch : Chain α) (h : ch ∈ chs) :
+    ∀ e ∈ chainEdges ch, e ∈ toGraph chs := by
+  intro e he
+  simp only [toGraph, List.mem_flatMap]
+  exact ⟨ch, h, he⟩
+
+/-- **Reachability is unchanged**: completing the lines (split, amplifier insertion, connector losses, padding) leaves
+the set of ROADM/transceiver pairs that are joined by a chain exactly as it was — and by `chain_is_path` every such
+pair is still joined by a path in the graph of the completed chains. -/
+theorem reachability_unchanged (c : SplitCfg α) (dIn dOut eol padding : α) (chs : List (Chain α)) :
+    endpointPairs (chs.map (completeChain c dIn dOut eol padding)) = endpointPairs chs := by
+  simp [endpointPairs, completeChain, Function.comp_def]
+
+end
+
 /-! ### split_fiber: equal spans with the original length and fibre loss -/
 
 /-- all spans produced from one fibre are fibres of one and the same length, with the original loss coefficient -/
@@ -219,7 +300,7 @@ theorem split_preserves_total_loss (c : SplitCfg ℝ) (uid : String) (p : FiberP
     rw [List.sum_map_add, List.sum_map_add]
     simp only [Nat.cast_zero]
     rw [sum_first_only _ _ s1, spanLumps_total p.lumps r.2 (r.1 * milli) hs hin]
-    simp only [List.map_const', List.length_range, List.sum_replicate, smul_eq_mul, sumLeft_eq_sum]
+    simp only [List.map_const', List.length_range, List.sum_replicate, sumLeft_eq_sum]
     rw [← s2]; ring
 
 /-! ### add_fiber_padding -/
